@@ -39,39 +39,97 @@ var solverDefs = []solverDef{
 
 var solverSem = make(chan struct{}, 14)
 
+// cpuSeconds reads utime+stime of a process from /proc (clock ticks are 100/s on Linux).
+func cpuSeconds(pid int) float64 {
+	b, err := os.ReadFile(fmt.Sprintf("/proc/%d/stat", pid))
+	if err != nil {
+		return -1
+	}
+	s := string(b)
+	i := strings.LastIndex(s, ")")
+	if i < 0 {
+		return -1
+	}
+	f := strings.Fields(s[i+1:])
+	if len(f) < 13 {
+		return -1
+	}
+	var ut, st float64
+	fmt.Sscanf(f[11], "%f", &ut)
+	fmt.Sscanf(f[12], "%f", &st)
+	return (ut + st) / 100.0
+}
+
+// runOne runs one solver. The budget is CPU time of the solver process (so a
+// loaded machine does not turn into spurious timeouts); wall time is capped at
+// 12x the budget.
 func runOne(ctx context.Context, sd solverDef, file string, timeoutMs int) SolverAnswer {
 	solverSem <- struct{}{}
 	defer func() { <-solverSem }()
 	if ctx.Err() != nil {
 		return SolverAnswer{Status: "cancelled", Solver: sd.name}
 	}
-	args := sd.args(file, timeoutMs)
-	c2, cancel := context.WithTimeout(ctx, time.Duration(timeoutMs+2000)*time.Millisecond)
-	defer cancel()
-	cmd := exec.CommandContext(c2, args[0], args[1:]...)
+	wallCap := time.Duration(timeoutMs) * 12 * time.Millisecond
+	args := sd.args(file, int(wallCap/time.Millisecond))
+	cmd := exec.Command(args[0], args[1:]...)
+	var outb strings.Builder
+	cmd.Stdout = &outb
+	cmd.Stderr = &outb
 	start := time.Now()
-	out, _ := cmd.CombinedOutput()
-	el := time.Since(start).Seconds()
-	s := strings.TrimSpace(string(out))
+	if err := cmd.Start(); err != nil {
+		return SolverAnswer{Status: "error", Solver: sd.name, Output: err.Error()}
+	}
+	done := make(chan struct{})
+	go func() { cmd.Wait(); close(done) }()
+	budget := float64(timeoutMs) / 1000.0
+	cpu := 0.0
+	killed := ""
+	tick := time.NewTicker(50 * time.Millisecond)
+	defer tick.Stop()
+loop:
+	for {
+		select {
+		case <-done:
+			break loop
+		case <-ctx.Done():
+			cmd.Process.Kill()
+			<-done
+			return SolverAnswer{Status: "cancelled", Solver: sd.name}
+		case <-tick.C:
+			if c := cpuSeconds(cmd.Process.Pid); c >= 0 {
+				cpu = c
+			}
+			if cpu > budget {
+				killed = "cpu"
+			} else if time.Since(start) > wallCap {
+				killed = "wall"
+			}
+			if killed != "" {
+				cmd.Process.Kill()
+				<-done
+				break loop
+			}
+		}
+	}
+	if cmd.ProcessState != nil {
+		cpu = (cmd.ProcessState.UserTime() + cmd.ProcessState.SystemTime()).Seconds()
+	}
+	s := strings.TrimSpace(outb.String())
 	first := s
 	if i := strings.Index(s, "\n"); i >= 0 {
 		first = strings.TrimSpace(s[:i])
 	}
-	ans := SolverAnswer{Solver: sd.name, TimeS: el, Output: s}
+	ans := SolverAnswer{Solver: sd.name, TimeS: cpu, Output: s}
 	switch {
+	case killed != "":
+		ans.Status = "timeout"
+		ans.Output = "killed after " + killed + " budget"
 	case first == "unsat":
 		ans.Status = "unsat"
 	case first == "sat":
 		ans.Status = "sat"
 	case first == "unknown" || strings.Contains(first, "timeout") || strings.Contains(first, "interrupted"):
 		ans.Status = "unknown"
-		if el*1000 >= float64(timeoutMs)*0.95 {
-			ans.Status = "timeout"
-		}
-	case ctx.Err() != nil:
-		ans.Status = "cancelled"
-	case c2.Err() != nil:
-		ans.Status = "timeout"
 	default:
 		ans.Status = "error"
 	}
